@@ -1,0 +1,23 @@
+//go:build verif
+
+// Package verifhook provides instrumentation points for the verification harness (/verif).
+package verifhook
+
+import "sync/atomic"
+
+var handler atomic.Value // func(point string, arg interface{})
+
+// Set installs the callback invoked at every instrumentation point (nil removes it).
+func Set(f func(point string, arg interface{})) {
+	if f == nil {
+		f = func(string, interface{}) {}
+	}
+	handler.Store(f)
+}
+
+// Hit marks an instrumentation point: the installed callback may block to gate the caller.
+func Hit(point string, arg interface{}) {
+	if f, ok := handler.Load().(func(string, interface{})); ok && f != nil {
+		f(point, arg)
+	}
+}
